@@ -51,6 +51,10 @@ def run(ctx: Ctx) -> Outcome:
         return rtcheck.replay_outcome('C15', ctx)
     scs = scenarios(ctx)
     model_cov, guided, notes = rtmodel.model_check_and_generate('C15', ctx)
+    mg = rtmodel.managed_model(ctx)          # the manager layer (send_up_or_schedule_tasks, idle propagation, receipts)
+    model_cov.update(mg)
+    model_cov['l2_states'] = model_cov.get('l2_states', 0) + mg['l2_managed_states']
+    model_cov['l2_transitions'] = model_cov.get('l2_transitions', 0) + mg['l2_managed_transitions']
     out = rtcheck.validate('C15', scs, ctx, extra_traces=guided, extra_cov=model_cov)
     out.notes += notes
     out.assumptions = ['ground truth for "forwarded to exactly one worker" is the set of SUBMIT/SUBMIT_BATCH payloads put on worker channels']
